@@ -382,9 +382,23 @@ def _expr_case(k, rng, tier):
     failures = []
     counters = {"expr_cases": 1, "expr_rep:" + rep: 1}
     wit = {"expression": sexpr, "python": "lambda d: " + pexpr, "representation": rep}
+    rename = {}
+    if rep in ("dict", "attr") and rng.random() < 0.35:
+        # record fields called like names the evaluation namespace already holds (math constants and functions, modules
+        # and helpers of histogrammar.util): on a record, the field is what the expression means
+        import re
+
+        hostile = rng.sample(["e", "pi", "tau", "inf", "nan", "gamma", "copy", "math", "id", "long", "types", "named", "basestring"], 3)
+        rename = dict(zip(("x", "y", "z"), hostile))
+        for old_, new_ in rename.items():
+            sexpr = re.sub(r"\b%s\b" % old_, "\x00" + new_, sexpr)
+            pexpr = pexpr.replace("d['%s']" % old_, "d['\x00%s']" % new_)
+        sexpr, pexpr = sexpr.replace("\x00", ""), pexpr.replace("\x00", "")
+        counters["hostile_field_names"] = 1
+        wit.update(expression=sexpr, python="lambda d: " + pexpr)
     pyf = eval("lambda d: " + pexpr, {})
     vals = [0.0, 1.0, -1.0, 2.5, -3.25, 0.5, 100.0, 7.0]
-    recs = [{f: rng.choice(vals) for f in ("x", "y", "z")} for _ in range(rng.randint(1, 8))]
+    recs = [{rename.get(f, f): rng.choice(vals) for f in ("x", "y", "z")} for _ in range(rng.randint(1, 8))]
     if "floor(" in sexpr and not vector:
         pass
 
@@ -399,6 +413,12 @@ def _expr_case(k, rng, tier):
 
     if not vector:
         u = UserFcn(sexpr)
+        if rng.random() < 0.3:
+            # many different expressions carry the same explicit name in one process: the name identifies nothing
+            from histogrammar.util import named
+
+            u = named("q", sexpr)
+            counters["expressions_sharing_a_name"] = 1
         for r in recs:
             try:
                 want = pyf(r)
